@@ -14,8 +14,8 @@ class P(vlib.Prop):
             "subfs cases: sequences on an in-memory filesystem in which most operations go through &apkfs.SubFS{FS, Root} (seven scenarios: joined names, '..' escapes, "
             "Symlink/Link through the view (regression replay of C17-F22), a rooted root, links inside, a missing root, a root that is a file; then random ones with names that try to leave the root). "
             "stage tarentry: WriteHeader calls (regular files of one package origin, the opener's files being the harness's) mixed with FullFS operations on the real tarfs "
-            "(14 scenarios: reads before any write, truncation, overwrite, buffering on write intent, the read-only-handle corner, hard link, remove, existing names, append, "
-            "empty entry, through links, metadata; then random ones). "
+            "(WriteHeader of regular files, directories, symbolic links and hard links; 17 scenarios: reads before any write, truncation, overwrite, buffering on write intent, the read-only-handle corner, hard link, remove, existing names, append, "
+            "empty entry, through links, directory / symlink / hard-link headers, metadata; then random ones). "
             "Every step's return value and error class is recorded; in Coq every step is compared with the model of its backend (memFS / tarfs model; "
             "for DirFS the overlay+host model of rwosfs.go, on every step, inside the envelope or not; for subfs the parent's model on the joined operation; for tarentry "
             "Model/TarEntry.v) and with the reference step (subfs: of the operation at root/name; tarentry: on the plain filesystem the state stands for). "
@@ -27,8 +27,8 @@ class P(vlib.Prop):
     )
     assumptions = (
         "permission arguments carry no file-type bits (the model keeps kind and permission bits apart)",
-        "the tar-entry side channel of pkg/tarfs is modelled for regular files (WriteHeader with a checksum record, one package origin, no replaces; lazy reads through "
-        "an opener whose files are the harness's and read like memFile); TypeDir/TypeSymlink/TypeLink headers, the hardlinks map and conflicts between packages are C06/C07's",
+        "the tar-entry side channel of pkg/tarfs is modelled for WriteHeader of regular files, symbolic links (checksum record), directories and hard links, one package origin, "
+        "no replaces, no xattr records; lazy reads through an opener whose files are the harness's and read like memFile; the hardlinks map and conflicts between packages are C06/C07's",
         "SubFS: the view is built as &SubFS{FS, Root} with a non-empty root; its constructors (memFS.Sub, apkfs.Sub), Open/OpenReaderAt and SubFS.Sub are not exercised",
         "one goroutine: the per-directory mutexes are not modelled",
         "the modification time of a node that was never Chtimes'd, link counts and node names are not observed",
@@ -49,7 +49,8 @@ class P(vlib.Prop):
                   "ROOTED ones included, Mknod/Readnod included, inside the overlay's envelope or — for tame, weight-respecting sequences — inside its syntactic "
                   "substitute; it drifts apart outside (witness). The sub-filesystem view is the parent at root/name for names without '..' and lexically confined to "
                   "its root there, Symlink and Link included (repaired by 44061d3); '..' escapes (refuted, replayed, recorded). dirFS.Mknod of a taken name answers ErrExist and changes nothing (repaired by bfd5027). The tar-entry channel of tarfs extends the tree "
-                  "model conservatively; a package's file under a fresh root name reads and stats as the entry's bytes; a read-only handle of a not-yet-loaded file is the "
+                  "model conservatively; a package's file under a fresh root name reads and stats as the entry's bytes; a hard-link header is Link (same inode, same entry), a directory header is mkdir -p then Chtimes, "
+                  "a link header under a fresh root name reads back its target and is idempotent; a read-only handle of a not-yet-loaded file is the "
                   "opener's file (refuted: stale after a write, no Seek). The models are tied to the code by per-step differential comparison of every return value and "
                   "error class on all five kinds of filesystem, and the reference step is evaluated next to every observed step.")
     level_note = ("trusted: Coq kernel, goextract, Go harness/printer; modelled not verified: the Go text of memfs.go / tarfs/fs.go (hand-written model, "
@@ -60,7 +61,7 @@ class P(vlib.Prop):
     modelled_not_verified = ("memFS/tarfs methods and memFile are modelled by hand (Model/MemFS.v); maxLinks and the two comparisons against it are regenerated "
                              "from the source; dirFS (rwosfs.go) is modelled by hand for a case-sensitive host (Model/DirFS.v); its case-insensitive mode, Open/sanitizePath "
                              "and the host kernel itself are not modelled; SubFS (sub.go) and the tar-entry channel of tarfs (regular files) are modelled by hand "
-                             "(Model/SubFS.v, Model/TarEntry.v); the SubFS constructors, Open/OpenReaderAt, WriteHeader for directories/symlinks/hard links are not")
+                             "(Model/SubFS.v, Model/TarEntry.v); the SubFS constructors, Open/OpenReaderAt, WriteHeader's xattr records and inter-package conflicts are not")
 
     def post_replay(self, rp):
         """cut the failing sequence of a violation replay down (harness: c17 -shrink); best effort"""
